@@ -883,7 +883,7 @@ let main_conc file =
       | "M" :: "conc-begin" :: _ -> phase := 1
       | "M" :: "conc-end" :: how :: _ -> phase := 2; ended := how
       | "H" :: c :: i :: r :: _ -> cur := Some (int_of_string c, int_of_string i, int_of_string r)
-      | "LT" :: rest ->
+      | "LT" :: tproc :: rest ->
         incr ntxn;
         let evs = List.filter_map (fun tok ->
             if Stdlib.String.length tok < 2 then None else
@@ -896,9 +896,9 @@ let main_conc file =
             | 'x' -> Some TAbort | 'f' -> Some TFlush | 'g' -> Some (TFlushed (a = "1"))
             | 'n' -> Some (TFresh (n_of_string a)) | _ -> None) rest in
         let acqs = Stdlib.String.concat ">" (List.filter_map (function TAcq i -> Some (string_of_int (int_of_n i)) | _ -> None) evs) in
-        if not (asc_f [] [] evs) then txn_bad := ("lock-order(" ^ acqs ^ ")") :: !txn_bad;
-        if not (commit_phase_b N0 evs) then txn_bad := ("commit-phase(" ^ acqs ^ ")") :: !txn_bad;
-        if not (balanced_b [] evs) then txn_bad := ("lock-leak(" ^ acqs ^ ")") :: !txn_bad
+        if not (asc_f [] [] evs) then txn_bad := (tproc ^ " lock-order(" ^ acqs ^ ")") :: !txn_bad;
+        if not (commit_phase_b N0 evs) then txn_bad := (tproc ^ " commit-phase(" ^ acqs ^ ")") :: !txn_bad;
+        if not (balanced_b [] evs) then txn_bad := (tproc ^ " lock-leak(" ^ acqs ^ ")") :: !txn_bad
       | _ -> ()
     done with End_of_file -> ());
   let ops = Array.of_list (List.rev !hist) in
